@@ -74,6 +74,13 @@ func nm(x interface{ Name() string }) string {
 			}
 		}
 		return y.Name()
+	case *ssa.Global:
+		if o := y.Object(); o != nil {
+			if n, ok := origName[o]; ok {
+				return n
+			}
+		}
+		return y.Name()
 	case types.Object:
 		if y == nil {
 			return ""
